@@ -37,6 +37,11 @@ import (
 	"golang.org/x/net/context"
 )
 
+const (
+	headerRange   = "Range"
+	headerIfRange = "If-Range"
+)
+
 var (
 	// cache-control的指令不区分大小写
 	noCacheReg = regexp.MustCompile(`(?i)no-cache|no-store|private`)
@@ -109,6 +114,7 @@ func NewProxy(s *server) elton.Handler {
 
 		reqHeader := c.Request.Header
 		var ifModifiedSince, ifNoneMatch string
+		var rangeValue, ifRange string
 		status := getCacheStatus(c)
 		// 针对fetching的请求，由于其最终状态未知，因此需要删除有可能导致304的请求，避免无法生成缓存
 		if status == cache.StatusFetching {
@@ -119,6 +125,15 @@ func NewProxy(s *server) elton.Handler {
 			}
 			if ifNoneMatch != "" {
 				reqHeader.Del(elton.HeaderIfNoneMatch)
+			}
+			// range请求会导致响应206（部分数据），该响应不能作为缓存数据返回给其它客户端
+			rangeValue = reqHeader.Get(headerRange)
+			ifRange = reqHeader.Get(headerIfRange)
+			if rangeValue != "" {
+				reqHeader.Del(headerRange)
+			}
+			if ifRange != "" {
+				reqHeader.Del(headerIfRange)
 			}
 		}
 
@@ -172,6 +187,12 @@ func NewProxy(s *server) elton.Handler {
 		}
 		if ifNoneMatch != "" {
 			reqHeader.Set(elton.HeaderIfNoneMatch, ifNoneMatch)
+		}
+		if rangeValue != "" {
+			reqHeader.Set(headerRange, rangeValue)
+		}
+		if ifRange != "" {
+			reqHeader.Set(headerIfRange, ifRange)
 		}
 		if acceptEncodingChanged {
 			reqHeader.Set(elton.HeaderAcceptEncoding, acceptEncoding)
